@@ -14,10 +14,11 @@ Record hints := { h_start : Z; h_end : Z; h_step : Z; h_func : string; h_range :
 
 Definition mem_str (s : string) (l : list string) : bool := existsb (String.eqb s) l.
 
-(* processHints / DownsampleHintsPlanner.Process: the two local maps *)
+(* processHints / DownsampleHintsPlanner.Process: the two local maps ("timestamp" is not an instant-vector
+   function for processHints: it reads the sample's own time and must see the raw samples) *)
 Definition instant_vectors : list string :=
   ["abs"; "absent"; "ceil"; "exp"; "floor"; "ln"; "log2"; "log10"; "round"; "scalar"; "sgn"; "sort"; "sqrt";
-   "timestamp"; "atan"; "cos"; "cosh"; "sin"; "sinh"; "tan"; "tanh"; "deg"; "rad"].
+   "atan"; "cos"; "cosh"; "sin"; "sinh"; "tan"; "tanh"; "deg"; "rad"].
 Definition range_vectors : list string :=
   ["absent_over_time"; "deriv"; "idelta"; "irate"; "rate"; "resets"; "min_over_time"; "max_over_time";
    "sum_over_time"; "count_over_time"; "stddev_over_time"; "stdvar_over_time"; "last_over_time";
